@@ -420,12 +420,23 @@ func c05Default(c *core.Ctx, r *core.Reporter) {
 		r.Unknown("getVariableValue", token.NoPos, "not found")
 		return
 	}
+	// before(a, b): a is executed before b on every path to b — in one function by dominance, across the phases a
+	// function has been split into by dominance of the calls that enter them
+	before := func(a, b ssa.Instruction) bool {
+		if a.Parent() == b.Parent() {
+			return core.InstrDominates(a, b)
+		}
+		aa, ab := c.Anchor(gv, a), c.Anchor(gv, b)
+		return aa != nil && ab != nil && aa != ab && core.InstrDominates(aa, ab)
+	}
 	okDef := false
-	for _, ci := range core.CallsTo(gv, c.Func("", "valueFromAST"), false) {
+	for _, ci := range c.RegionCallsTo(gv, c.Func("", "valueFromAST")) {
 		if core.HasClass(ci.Common().Args[0], "field:VariableDefinition.DefaultValue") {
-			// dominated by an isNullish(input) test
-			for _, nc := range core.CallsTo(gv, c.Func("", "isNullish"), false) {
-				if core.InstrDominates(nc, ci) && core.HasClass(nc.Common().Args[0], "param:interface{}") {
+			// dominated by an isNullish(input) test; the input is the function's parameter or, when the function is inlined
+			// into the loop over the definitions, the entry of the inputs map
+			for _, nc := range c.RegionCallsTo(gv, c.Func("", "isNullish")) {
+				inputArg := core.HasClass(nc.Common().Args[0], "param:interface{}") || core.HasClass(nc.Common().Args[0], "index(param:map[string]interface{})")
+				if before(nc, ci) && inputArg {
 					okDef = true
 				}
 			}
@@ -435,9 +446,9 @@ func c05Default(c *core.Ctx, r *core.Reporter) {
 		"the variable definition's default is used only when the provided value is nullish",
 		"getVariableValue does not apply the variable's default value under an isNullish(input) test")
 	// validation precedes coercion
-	valid := core.CallsTo(gv, c.Func("", "isValidInputValue"), false)
-	coerce := core.CallsTo(gv, c.Func("", "coerceValue"), false)
-	r.Check(len(valid) == 1 && len(coerce) == 1 && core.InstrDominates(valid[0], coerce[0]), "getVariableValue/validate-before-coerce", gv.Pos(),
+	valid := c.RegionCallsTo(gv, c.Func("", "isValidInputValue"))
+	coerce := c.RegionCallsTo(gv, c.Func("", "coerceValue"))
+	r.Check(len(valid) == 1 && len(coerce) == 1 && before(valid[0], coerce[0]), "getVariableValue/validate-before-coerce", gv.Pos(),
 		"isValidInputValue dominates coerceValue", "variable values are coerced without (or before) being validated")
 	_ = types.Typ
 }
